@@ -24,12 +24,12 @@ CHECKS = {
    "4/C03"),
  "C04": (True,
    "bounded exhaustive exploration of both renderers on all renderable queries of a tree space and all accepted token sequences, differential oracle (parameter list vs generator's values, placeholder count, semantic equivalence on probe rows, text stability under same-kind substitution)",
-   "For every query over the C03 leaves extended with short regexps and one-character patterns at depth <= 1 (value list known to the harness), every tree of T(21,1) ∪ T(6,2) (thorough T(21,2)) and every accepted token sequence <= 4/5, with and without default field: whenever ToPostgres succeeds ToParameterizedPostgres must succeed, carry as many ? as parameters, parameters of kind int/float64/string equal to the query's values left to right (patterns translated, open bounds absent), be readable by PostgreSQL's grammar after rebinding, and evaluate like the inline SQL on every probe row; every single-slot same-kind substitution must leave the SQL text unchanged.",
+   "For every query over the C03 leaves extended with short regexps and one-character patterns at depth <= 1 (value list known to the harness), every tree of T(25,1) ∪ T(6,2) (thorough T(25,2)) and every accepted token sequence <= 4/5, with and without default field: whenever ToPostgres succeeds ToParameterizedPostgres must succeed, carry as many ? as parameters, parameters of kind int/float64/string equal to the query's values left to right (patterns translated, open bounds absent), be readable by PostgreSQL's grammar after rebinding, and evaluate like the inline SQL on every probe row; every single-slot same-kind substitution must leave the SQL text unchanged.",
    'Equivalence by evaluation (not text). Two ledgered defects (inline %.2f rounding; quoted "*" emitted as constant).',
    "4/C04"),
  "C05": (True,
    'bounded exhaustive exploration of the real parser over all expression trees up to a depth bound, printed by a stratified-grammar reference printer, compared with the tree built through the public constructors',
-   'Every tree of depth <= 2 over 21 leaf forms x 7 unary x 2 binary constructors (2.2e6 trees; thorough adds depth 3 over 3 leaves, 2.9e7), every unary chain to length 4/5 and every binary spine to 4/5 leaves is printed with exactly the parentheses the documented table requires (plus: one redundant pair at each node, fully parenthesised) and parsed by the real Parse; the result must be reflect.DeepEqual to the tree built from the same AST with expr.AND/Eq/Rang/... Nothing sampled.',
+   'Every tree of depth <= 2 over 25 leaf forms x 7 unary x 2 binary constructors (2.2e6 trees; thorough adds depth 3 over 3 leaves, 2.9e7), every unary chain to length 4/5 and every binary spine to 4/5 leaves is printed with exactly the parentheses the documented table requires (plus: one redundant pair at each node, fully parenthesised) and parsed by the real Parse; the result must be reflect.DeepEqual to the tree built from the same AST with expr.AND/Eq/Rang/... Nothing sampled.',
    "Trusts the harness printer's reading of the table (calibrated: the only disagreements on the pinned tree were the repeated-prefix-operator defect, since fixed). General trees deeper than 3 are outside the bound.",
    "4/C05"),
  "C06": (True,
@@ -39,7 +39,7 @@ CHECKS = {
    "4/C06"),
  "C07": (True,
    'bounded exhaustive exploration of the real parser: all trees to a depth bound x all subsets of AND nodes written as juxtaposition, differential oracle Parse(juxtaposed) == Parse(explicit AND)',
-   'For every tree of depth <= 2 over 21 leaf forms (thorough: + depth 3 over 2 and 3 leaves) and every binary spine to 5/6 leaves, every non-empty subset of eligible AND nodes is printed as juxtaposition and parsed; it must parse (core gaps) and be DeepEqual to the parse of the explicit-AND text. 4.5e6 texts in the quick tier.',
+   'For every tree of depth <= 2 over 25 leaf forms (thorough: + depth 3 over 2 and 3 leaves) and every binary spine to 5/6 leaves, every non-empty subset of eligible AND nodes is printed as juxtaposition and parsed; it must parse (core gaps) and be DeepEqual to the parse of the explicit-AND text. 4.5e6 texts in the quick tier.',
    'Non-core gaps (after a closing bracket or postfix operator, before ( NOT + -) may be rejected; counted in evidence (rejected_noncore). Depth > 3 outside the bound.',
    "4/C07"),
  "C08": (True,
@@ -59,7 +59,7 @@ CHECKS = {
    "4/C10"),
  "C11": (True,
    'bounded exhaustive exploration of the real parser: all token sequences / trees up to a bound parsed with and without the option, differential + structural oracle',
-   'Every token sequence <= 4/5 (full alphabet) and <= 6/7 (unary and boolean alphabets) with default field D, and every tree text of T(21,1) ∪ T(6,2) (thorough T(21,2)) with four default-field names (plain, with space, with double quote, 70 bytes): acceptance must agree with the option-free parse, erasing the default scoping must give exactly the option-free tree, no bare operand may remain and nothing inside a fielded value may be scoped.',
+   'Every token sequence <= 4/5 (full alphabet) and <= 6/7 (unary and boolean alphabets) with default field D, and every tree text of T(25,1) ∪ T(6,2) (thorough T(25,2)) with four default-field names (plain, with space, with double quote, 70 bytes): acceptance must agree with the option-free parse, erasing the default scoping must give exactly the option-free tree, no bare operand may remain and nothing inside a fielded value may be scoped.',
    'The default-field name never occurs in the query (precondition of the statement).',
    "4/C11"),
  "C12": (True,
@@ -79,7 +79,7 @@ CHECKS = {
    "4/C14"),
  "C15": (True,
    'bounded exhaustive exploration of driver.Base.Render over configurations x trees with tracing render functions, checked against a fold reference model',
-   'All 40 configurations (all-tracing map, 19 single-operator overrides, 19 single-operator removals, the README construction) x every tree of T(21,1) ∪ T(6,2) (thorough T(21,2)) obtained both by Parse and through the public constructors: the call log must be exactly one call per node, to the function registered for that node\'s operator, after its children, with its children\'s results as (left, right) wrapped in parentheses at most, and Render\'s result must be the root call\'s result; with an operator removed Render must return ("", error) iff the tree contains it; ToPostgres/ToParameterizedPostgres must fail on every text containing ~ or ^.',
+   'All 40 configurations (all-tracing map, 19 single-operator overrides, 19 single-operator removals, the README construction) x every tree of T(25,1) ∪ T(6,2) (thorough T(25,2)) obtained both by Parse and through the public constructors: the call log must be exactly one call per node, to the function registered for that node\'s operator, after its children, with its children\'s results as (left, right) wrapped in parentheses at most, and Render\'s result must be the root call\'s result; with an operator removed Render must return ("", error) iff the tree contains it; ToPostgres/ToParameterizedPostgres must fail on every text containing ~ or ^.',
    'Serialisation of raw leaf values and the order in which independent children are rendered are not constrained (not part of the statement).',
    "4/C15"),
  "C16": (True,
